@@ -65,7 +65,21 @@ def c06(ck):
         ck.replay_stage("all", "MC_C06", "MC_C06_thorough.cfg", tlc_workers=12, timeout=3400)
 
 
-PROPS = {"C04": c04, "C06": c06, "C05": c05, "C18": c18}
+def c07(ck):
+    ck.rule = ("every path of 1..3 (thorough 4) steps over a 27-step alphabet (keys incl. first/last/size and own-key collisions, "
+               "integer-like keys, literal indices -4..3, indices through variables, through a nested path, undefined and non-scalar "
+               "index expressions) from 4 roots on a nested datum; every index -7..6 into arrays of length 0..5 as literal, int "
+               "variable, string variable and nested path; first/last/size on lengths 0..5; 105 literals through the AST printer and "
+               "193 integer/decimal literal spellings as raw source; non-trivial = path with at least one step, or any index/literal case")
+    ck.assumptions = ["ASCII keys and strings", "printing a multi-key object is unspecified (iteration order) and only checked to succeed",
+                      "integer literal spellings are within the 64-bit range here; out-of-range spellings belong to C01"]
+    if ck.tier == "quick":
+        ck.replay_stage("paths3", "MC_C07", "MC_C07_quick.cfg")
+    else:
+        ck.replay_stage("paths4", "MC_C07", "MC_C07_thorough.cfg", tlc_workers=12, timeout=3400)
+
+
+PROPS = {"C04": c04, "C06": c06, "C07": c07, "C05": c05, "C18": c18}
 
 
 def replay_file(prop, path):
